@@ -631,6 +631,40 @@ func c04Run(w *W) {
 			w.Violation(c04Class(faults), mkSymCase(ss), fmt.Sprintf("ParseCommands(%q): %s", r.src, strings.Join(faults, "; ")))
 		}
 	})
+	// (c) the repetition family: one construct repeated or nested n = 1 … 24 times (line numbers and columns above 9)
+	for n := 1; n <= 24; n++ {
+		if !w.Mine() || w.TimeUp() {
+			continue
+		}
+		for _, src := range repetitionSources(n) {
+			if strings.Contains(src, "\\\n") {
+				continue // line continuations are excluded by the property
+			}
+			w.Announce(src)
+			o := runParse(src) // (positions are relative to the call: only the first command of the source is looked at)
+			if o.err != nil || o.pan != nil {
+				continue
+			}
+			cmds, comments := o.cmds, o.comments
+			w.Count("states", 1)
+			w.Count("evaluations", 1)
+			w.Count("repetition_sources", 1)
+			w.Count("traces_validated_against_impl", 1)
+			w.Count("distinct_nontrivial", 1)
+			var faults []string
+			func() {
+				defer func() {
+					if e := recover(); e != nil {
+						faults = []string{fmt.Sprintf("walking the AST panicked: %v", e)}
+					}
+				}()
+				faults = c04Check(src, cmds, comments)
+			}()
+			if len(faults) > 0 {
+				w.Violation(c04Class(faults), symCase{nil, src}, fmt.Sprintf("ParseCommands(%q): %s", src, strings.Join(faults, "; ")))
+			}
+		}
+	}
 	// (b) the derivation sets in three layouts, plus their multi-byte variants
 	seen := map[string]bool{}
 	derivations(w.thorough(), func(name string, texts []string) {
